@@ -1225,6 +1225,11 @@ let ar_cmd (args : string list) : string =
     let admitted = N.leb b c in
     Printf.sprintf "admit:%d lo:%s hi:%s" (if admitted then 1 else 0)
       (show (ar_mem_add c ar_empty_n (ar_entries one t))) (show (ar_mem_add c ar_empty_n (ar_entries aRENA_MAX_HEIGHT t)))
+  | ["at"; cap; n; t] ->
+    let c = big_of_string cap in
+    let n0 = big_of_string n in
+    Printf.sprintf "lo:%s hi:%s mu:%s"
+      (show (ar_mem_add c n0 (ar_entries one t))) (show (ar_mem_add c n0 (ar_entries aRENA_MAX_HEIGHT t))) (dec_of_n ar_max_unused)
   | _ -> "bad-command"
 
 let vp_show_state () =
